@@ -170,6 +170,8 @@ type shared struct {
 	cliCheck map[string]map[string]any
 }
 
+var propC04 bool
+
 func runItem(w *hx.Worker, sh *shared, it genfam.Item, onlyInput *string) {
 	rt, err := lexer.New(it.Def.ToRules())
 	if err != nil {
@@ -217,7 +219,7 @@ func runItem(w *hx.Worker, sh *shared, it genfam.Item, onlyInput *string) {
 		ins = []string{*onlyInput}
 	}
 	// several live lexers of ONE generated definition, advanced alternately, must not disturb each other
-	if onlyInput == nil && (it.Family == "stack" || it.Family == "include" || it.Family == "names") {
+	if !propC04 && onlyInput == nil && (it.Family == "stack" || it.Family == "include" || it.Family == "names") {
 		// inputs that drive the lexer at least two states deep, up to 3 per distinct deepest stack, at most 36
 		// in all: every ordered pair of them is advanced alternately
 		var picks []string
@@ -257,6 +259,39 @@ func runItem(w *hx.Worker, sh *shared, it genfam.Item, onlyInput *string) {
 				}
 			}
 		}
+	}
+	if propC04 {
+		// C04 on generated lexers: positions and losslessness of every successful lex, from the input text alone
+		noElided := true
+		for _, rs := range it.Def {
+			for _, r := range rs {
+				if r.Act != m.Include && r.Act != m.Return && m.Elided(r.Name) {
+					noElided = false
+				}
+			}
+		}
+		for _, in := range ins {
+			w.Case(func() string { return key(it, in) })
+			w.Count("evaluations", 1)
+			r := lexdrive.Drive(gen, "f.txt", in, 1)
+			if r.Panicked == "" && r.Err == nil && r.Extra != "" {
+				w.Violate(hx.Violation{Key: "generated " + key(it, in), Class: "position-or-text", Detail: map[string]any{"what": r.Extra}})
+				continue
+			}
+			if r.Panicked != "" || r.Err != nil || r.EOF == nil {
+				w.Count("inputs_not_lexed_successfully", 1)
+				continue
+			}
+			if d := lexdrive.CheckLossless(in, "f.txt", r, noElided, false); d != "" {
+				w.Violate(hx.Violation{Key: "generated " + key(it, in), Class: "position-or-text", Detail: map[string]any{"what": d}})
+				continue
+			}
+			w.DistinctS(fmt.Sprint(r.Toks))
+			if len(in) >= 3 && strings.Contains(in, "\n") {
+				w.Sample(map[string]any{"generated_lexer_for": it.Def.String(), "input": in, "tokens": fmt.Sprintf("%#v", r.Toks)})
+			}
+		}
+		return
 	}
 	for _, in := range ins {
 		w.Case(func() string { return key(it, in) })
@@ -423,6 +458,7 @@ func load() *shared {
 }
 
 func plan(c *hx.Ctx) *hx.Plan {
+	propC04 = c.Prop == "C04"
 	items := genfam.Items(c.Quick())
 	sh := load()
 	fam := map[string]int{}
@@ -440,6 +476,8 @@ func plan(c *hx.Ctx) *hx.Plan {
 }
 
 func replay(c *hx.Ctx, k string) []hx.Violation {
+	propC04 = c.Prop == "C04"
+	k = strings.TrimPrefix(k, "generated ")
 	parts := strings.Split(k, " :: ")
 	w := hx.NewReplayWorker()
 	if len(parts) < 3 {
@@ -462,5 +500,5 @@ func replay(c *hx.Ctx, k string) []hx.Violation {
 }
 
 func main() {
-	hx.Main(&hx.Spec{Engine: "genx", JobTimeout: 60 * time.Second, Levels: map[string]string{"C05": "model_checking"}, Plan: plan, Replay: replay})
+	hx.Main(&hx.Spec{Engine: "genx", JobTimeout: 60 * time.Second, Levels: map[string]string{"C05": "model_checking", "C04": "exploration"}, Plan: plan, Replay: replay})
 }
